@@ -78,7 +78,8 @@ func (p *polling) OnRequest(ctx *types.HttpContext) {
 
 // The client sends a request awaiting for us to send data.
 func (p *polling) onPollRequest(ctx *types.HttpContext) {
-	if p.req.Load() != nil {
+	// test and set in one step: two polls arriving together must not both be accepted
+	if !p.req.CompareAndSwap(nil, ctx) {
 		polling_log.Debug("request overlap")
 		// assert: p.res, '.req should be (un)set together'
 		p.OnError("overlap from client", nil)
@@ -87,8 +88,6 @@ func (p *polling) onPollRequest(ctx *types.HttpContext) {
 		return
 	}
 	verifhook.At("polling.poll.tested", p.Sid())
-
-	p.req.Store(ctx)
 
 	polling_log.Debug("setting request")
 
@@ -120,7 +119,8 @@ func (p *polling) onPollRequest(ctx *types.HttpContext) {
 
 // The client sends a request with data.
 func (p *polling) onDataRequest(ctx *types.HttpContext) {
-	if p.dataCtx.Load() != nil {
+	// test and set in one step: two data requests arriving together must not both be accepted
+	if !p.dataCtx.CompareAndSwap(nil, ctx) {
 		// assert: p.dataRes, '.dataCtx should be (un)set together'
 		p.OnError("data request overlap from client", nil)
 		ctx.SetStatusCode(http.StatusBadRequest)
@@ -131,12 +131,11 @@ func (p *polling) onDataRequest(ctx *types.HttpContext) {
 	isBinary := ctx.Headers().Peek("Content-Type") == "application/octet-stream"
 
 	if isBinary && p.Protocol() == 4 {
+		p.dataCtx.Store(nil)
 		p.OnError("invalid content", nil)
 		return
 	}
 	verifhook.At("polling.data.tested", p.Sid())
-
-	p.dataCtx.Store(ctx)
 
 	var cleanup types.Callable
 
